@@ -950,6 +950,14 @@ def k6_one_way_table(ctx, K: Kinds) -> None:
         for st in walk_local(f):
             if isinstance(st, ast.Assign) and any(norm(t) == "self._one_way_vertices" for t in st.targets) and isinstance(st.value, ast.Name):
                 tables.add(st.value.id)
+            elif isinstance(st, ast.Assign) and any(norm(t) == "self._one_way_vertices" for t in st.targets) and mname == "get_one_way_vertices" \
+                    and (isinstance(st.value, (ast.Dict, ast.DictComp)) or (isinstance(st.value, ast.Call) and norm(st.value.func) == "dict")):
+                n += 1
+                for x in ast.walk(st.value):
+                    if isinstance(x, ast.Name):
+                        tables.add(x.id)
+                ctx.violation("K6", st, f"the table kept for later is `{norm(st.value)[:50]}`, a plain dict: add_one_way_edge relies on the default factory "
+                              "(`self._one_way_vertices[label].add(...)` for a label seen for the first time raises KeyError after the first specification check)")
         for st in walk_local(f):
             if isinstance(st, ast.Assign) and len(st.targets) == 1 and isinstance(st.targets[0], ast.Subscript) \
                     and norm(st.targets[0].value) in tables and mname == "get_one_way_vertices":
